@@ -69,6 +69,7 @@ func genC15(t *core.Tape, tier string) *Scenario {
 	case 0: // canceller task: cancels at any scheduler step
 		p.CancelTask = true
 		p.CancelDelay = time.Duration(t.Choose(400, "cancel.delay.us")) * time.Microsecond
+		p.CancelLate = t.Bool(1, 2, "cancel.late")
 		sc.Notes["mode_canceller"]++
 	case 1: // cancel inside the program, between two operations
 		sc.Notes["mode_cancel_op"]++
